@@ -46,6 +46,10 @@ type linIn struct {
 	Key  int   `json:"key"`
 	Mask int   `json:"mask,omitempty"` // Merge: which keys
 	Val  int64 `json:"val,omitempty"`  // unique value code
+	// Merge only: per-key values that override Val — the client re-writes values it has seen before (so a Merge
+	// may carry entries equal to what the store already holds, next to new ones)
+	Vals   linState `json:"vals,omitempty"`
+	Reseen bool     `json:"reseen,omitempty"`
 }
 
 type linOut struct {
@@ -120,6 +124,9 @@ func linStep(state, input, output any) (bool, any) {
 		for i := 0; i < linKeys; i++ {
 			if in.Mask&(1<<i) != 0 {
 				st[i] = in.Val
+				if in.Vals[i] != 0 {
+					st[i] = in.Vals[i]
+				}
 			}
 		}
 		return true, st
@@ -175,7 +182,10 @@ var linModel = porcupine.Model{
 	},
 }
 
-func linApply(s *flyt.SharedStore, in linIn) linOut {
+func linApply(s *flyt.SharedStore, in linIn) linOut { return linApplyOwn(s, in, nil) }
+
+// linApplyOwn: when own != nil, Merge passes that (caller-owned, reused) map instead of a fresh one.
+func linApplyOwn(s *flyt.SharedStore, in linIn, own map[string]any) linOut {
 	k := linKey(in.Key)
 	switch in.Op {
 	case opSet:
@@ -210,9 +220,18 @@ func linApply(s *flyt.SharedStore, in linIn) linOut {
 		return o
 	case opMerge:
 		m := map[string]any{}
+		if own != nil {
+			for kk := range own {
+				delete(own, kk)
+			}
+			m = own
+		}
 		for i := 0; i < linKeys; i++ {
 			if in.Mask&(1<<i) != 0 {
 				m[linKey(i)] = linRepr(in.Val)
+				if in.Vals[i] != 0 {
+					m[linKey(i)] = linRepr(in.Vals[i])
+				}
 			}
 		}
 		s.Merge(m)
@@ -252,19 +271,27 @@ type LinOp struct {
 type LinCase struct {
 	Family  string  `json:"family"`
 	Clients int     `json:"clients"`
-	History []LinOp `json:"history"`
+	History []LinOp `json:"history,omitempty"`
+	Big     []BigOp `json:"big,omitempty"` // large-store family
 }
 
 // weights of the two operation mixes
 var mixRead = []int{opSet, opSet, opGet, opGet, opHas, opLen, opKeys, opGetAll, opGetAll, opMerge, opClear, opDelete, opGetInt, opGetIntOr, opGetString, opGetStringOr, opGetFloat, opBindInt, opGetSlice, opLen, opKeys}
 var mixMerge = []int{opMerge, opMerge, opMerge, opClear, opClear, opGetAll, opGetAll, opGetAll, opKeys, opLen, opSet, opDelete, opGet}
 
+// re-merge mix: clients read (GetAll/Get) and merge back what they saw plus something new, against Clear/Delete/Set
+var mixRemerge = []int{opMerge, opMerge, opMerge, opMerge, opGetAll, opGetAll, opGet, opClear, opClear, opDelete, opDelete, opSet, opHas, opLen, opKeys}
+
 func recordHistory(c *Cfg, idx int) *LinCase {
 	rg := c.Rng("c13", idx)
 	clients := 2 + rg.IntN(5)
 	mix := mixRead
-	if idx%3 == 0 {
+	reseen := false
+	switch idx % 4 {
+	case 0:
 		mix = mixMerge
+	case 1:
+		mix, reseen = mixRemerge, true
 	}
 	type plan struct {
 		ins    []linIn
@@ -284,6 +311,7 @@ func recordHistory(c *Cfg, idx int) *LinCase {
 				if rg.IntN(3) == 0 {
 					in.Mask = 1<<linKeys - 1
 				}
+				in.Reseen = reseen && rg.IntN(4) != 0
 			}
 			plans[cl].ins = append(plans[cl].ins, in)
 			plans[cl].yields = append(plans[cl].yields, rg.IntN(4))
@@ -302,14 +330,60 @@ func recordHistory(c *Cfg, idx int) *LinCase {
 			for int(ready.Load()) < clients { // spin barrier
 				runtime.Gosched()
 			}
+			var seen linState // what this client last saw or wrote, per key
+			var own map[string]any
+			if idx%2 == 0 {
+				own = map[string]any{} // this client reuses (and scribbles on) one map of its own for all its Merge calls
+			}
 			for j, in := range plans[cl].ins {
 				if plans[cl].yields[j] == 0 {
 					runtime.Gosched()
 				}
+				if in.Op == opMerge && in.Reseen {
+					fresh := false
+					for i := 0; i < linKeys; i++ {
+						if in.Mask&(1<<i) != 0 {
+							if seen[i] != 0 && (i+j)%3 != 0 {
+								in.Vals[i] = seen[i]
+							} else {
+								fresh = true
+							}
+						}
+					}
+					_ = fresh
+				}
 				call := clock.Add(1)
-				out := linApply(store, in)
+				out := linApplyOwn(store, in, own)
 				ret := clock.Add(1)
 				hist[cl] = append(hist[cl], LinOp{cl, in, out, call, ret})
+				if in.Op == opMerge && own != nil {
+					// the caller's map stays the caller's: writing to it afterwards is not a store operation
+					own[linKey((in.Key+1)%linKeys)] = int(in.Val + 1)
+					delete(own, linKey(in.Key))
+				}
+				switch in.Op {
+				case opGet:
+					if out.OK {
+						seen[in.Key] = out.V
+					}
+				case opGetAll:
+					for i, v := range out.Vals {
+						if v != 0 {
+							seen[i] = v
+						}
+					}
+				case opSet:
+					seen[in.Key] = in.Val
+				case opMerge:
+					for i := 0; i < linKeys; i++ {
+						if in.Mask&(1<<i) != 0 {
+							seen[i] = in.Val
+							if in.Vals[i] != 0 {
+								seen[i] = in.Vals[i]
+							}
+						}
+					}
+				}
 			}
 		}(cl)
 	}
@@ -363,10 +437,33 @@ func runC13(c *Cfg) {
 		runC13Race(c)
 		return
 	}
-	nh := c.Pick(20000, 400000)
+	nh := c.Pick(40000, 600000)
 	var overlapsTotal, unknown int64
 	for i := 0; i < nh; i++ {
 		if !c.Mine(i) {
+			continue
+		}
+		if (i/16)%8 == 5 { // large-store family
+			lc := recordBigHistory(c, i)
+			res, ov := checkBigHistory(lc, 20*time.Second)
+			r.Eval()
+			r.Count("large_store.histories", 1)
+			r.Count("large_store.operations", int64(len(lc.Big)))
+			r.Count("overlapping_cross_client_pairs", int64(ov))
+			overlapsTotal += int64(ov)
+			switch res {
+			case porcupine.Ok:
+				r.Count("porcupine.ok", 1)
+			case porcupine.Illegal:
+				r.Count("porcupine.illegal", 1)
+				r.Violate("C13", "C13:not-linearizable:large-store", fmt.Sprintf("history of %d operations by %d clients on a store holding %d filler keys (written by one Merge, removed by Clear) has no sequential witness: a reader saw part of a Merge or a half-cleared store", len(lc.Big), lc.Clients, bigF), lc)
+			default:
+				unknown++
+				r.Count("porcupine.unknown", 1)
+			}
+			if ov > 0 {
+				r.Nontrivial(fmt.Sprintf("big %d", i))
+			}
 			continue
 		}
 		lc := recordHistory(c, i)
@@ -422,6 +519,7 @@ func runC13Race(c *Cfg) {
 				rg := c.Rng(fmt.Sprintf("c13race.%d.%d", c.Shard, round), g)
 				start.Wait()
 				sink := 0
+				own := map[string]any{}
 				for i := 0; i < per; i++ {
 					func() {
 						defer func() {
@@ -456,7 +554,14 @@ func runC13Race(c *Cfg) {
 							m["extra"] = 1
 							delete(m, k)
 						case 11:
-							store.Merge(map[string]any{"k0": i, "k1": i, "k2": i})
+							if i%3 == 0 { // a caller-owned map, reused and modified between calls
+								own["k0"], own["k1"] = i, i
+								store.Merge(own)
+								own["k2"] = i
+								delete(own, "k1")
+							} else {
+								store.Merge(map[string]any{"k0": i, "k1": i, "k2": i})
+							}
 						case 12:
 							if i%64 == 0 {
 								store.Clear()
@@ -506,6 +611,18 @@ func replayC13(c *Cfg, spec json.RawMessage) {
 		fmt.Println("cannot parse history:", err)
 		return
 	}
+	if lc.Family == "large-store" {
+		sort.Slice(lc.Big, func(i, j int) bool { return lc.Big[i].Call < lc.Big[j].Call })
+		for _, o := range lc.Big {
+			fmt.Printf("  client %d  [%4d,%4d]  %s\n", o.Client, o.Call, o.Ret, bigModel.DescribeOperation(o.In, o.Out))
+		}
+		res, ov := checkBigHistory(&lc, 60*time.Second)
+		fmt.Printf("porcupine verdict: %v (overlapping pairs: %d)\n", res, ov)
+		if res == porcupine.Illegal {
+			c.Rep.Violate("C13", "C13:not-linearizable:large-store", "recorded history is not linearizable", lc)
+		}
+		return
+	}
 	sort.Slice(lc.History, func(i, j int) bool { return lc.History[i].Call < lc.History[j].Call })
 	for _, o := range lc.History {
 		fmt.Printf("  client %d  [%4d,%4d]  %s\n", o.Client, o.Call, o.Ret, linModel.DescribeOperation(o.In, o.Out))
@@ -515,4 +632,185 @@ func replayC13(c *Cfg, spec json.RawMessage) {
 	if res == porcupine.Illegal {
 		c.Rep.Violate("C13", "C13:not-linearizable", "recorded history is not linearizable", lc)
 	}
+}
+
+// ---------------------------------------------------------------------------------------------------------
+// Large-store histories: the store also holds bigF filler keys that are written by one atomic Merge and removed
+// by Clear, so a reader that sees "some" of them has seen half a Merge or a half-cleared store. (Key spaces of a
+// handful of keys never reach size thresholds inside the store.)
+
+const bigF = 1536
+
+type bigState struct {
+	Fill bool
+	K0   int64
+}
+
+const (
+	bigSet = iota
+	bigDel
+	bigRefill
+	bigClear
+	bigLen
+	bigKeys
+	bigGetAll
+	bigHas
+	numBigOps
+)
+
+var bigOpNames = []string{"Set(k0)", "Delete(k0)", "Merge(all fillers)", "Clear", "Len", "Keys", "GetAll", "Has(filler)"}
+
+type bigIn struct {
+	Op  int   `json:"op"`
+	Val int64 `json:"val,omitempty"`
+	Idx int   `json:"idx,omitempty"`
+}
+
+type bigOut struct {
+	N  int   `json:"n,omitempty"`
+	OK bool  `json:"ok,omitempty"`
+	V  int64 `json:"v,omitempty"`
+}
+
+type BigOp struct {
+	Client int    `json:"client"`
+	In     bigIn  `json:"in"`
+	Out    bigOut `json:"out"`
+	Call   int64  `json:"call"`
+	Ret    int64  `json:"ret"`
+}
+
+var bigModel = porcupine.Model{
+	Init: func() any { return bigState{} },
+	Step: func(state, input, output any) (bool, any) {
+		st, in, out := state.(bigState), input.(bigIn), output.(bigOut)
+		n := 0
+		if st.Fill {
+			n = bigF
+		}
+		if st.K0 != 0 {
+			n++
+		}
+		switch in.Op {
+		case bigSet:
+			st.K0 = in.Val
+			return true, st
+		case bigDel:
+			st.K0 = 0
+			return true, st
+		case bigRefill:
+			st.Fill = true
+			return true, st
+		case bigClear:
+			return true, bigState{}
+		case bigLen, bigKeys:
+			return out.N == n, st
+		case bigGetAll:
+			return out.N == n && out.V == st.K0, st
+		case bigHas:
+			return out.OK == st.Fill, st
+		}
+		return false, st
+	},
+	DescribeOperation: func(input, output any) string {
+		in, out := input.(bigIn), output.(bigOut)
+		return fmt.Sprintf("%s val=%d idx=%d -> %+v", bigOpNames[in.Op], in.Val, in.Idx, out)
+	},
+}
+
+var bigFillerKeys = func() []string {
+	k := make([]string, bigF)
+	for i := range k {
+		k[i] = fmt.Sprintf("f%04d", i)
+	}
+	return k
+}()
+
+func bigApply(s *flyt.SharedStore, in bigIn) bigOut {
+	switch in.Op {
+	case bigSet:
+		s.Set("k0", int(in.Val))
+	case bigDel:
+		s.Delete("k0")
+	case bigRefill:
+		m := make(map[string]any, bigF)
+		for _, k := range bigFillerKeys {
+			m[k] = 1
+		}
+		s.Merge(m)
+	case bigClear:
+		s.Clear()
+	case bigLen:
+		return bigOut{N: s.Len()}
+	case bigKeys:
+		return bigOut{N: len(s.Keys())}
+	case bigGetAll:
+		all := s.GetAll()
+		o := bigOut{N: len(all)}
+		if v, ok := all["k0"].(int); ok {
+			o.V = int64(v)
+		}
+		return o
+	case bigHas:
+		return bigOut{OK: s.Has(bigFillerKeys[in.Idx%bigF])}
+	}
+	return bigOut{}
+}
+
+func recordBigHistory(c *Cfg, idx int) *LinCase {
+	rg := c.Rng("c13big", idx)
+	clients := 2 + rg.IntN(4)
+	mix := []int{bigRefill, bigRefill, bigClear, bigClear, bigLen, bigLen, bigLen, bigKeys, bigGetAll, bigHas, bigHas, bigSet, bigDel}
+	plans := make([][]bigIn, clients)
+	for cl := range plans {
+		n := 5 + rg.IntN(5)
+		for j := 0; j < n; j++ {
+			plans[cl] = append(plans[cl], bigIn{Op: mix[rg.IntN(len(mix))], Val: int64(cl+1)<<20 | int64(j+1), Idx: rg.IntN(bigF)})
+		}
+	}
+	store := flyt.NewSharedStore()
+	var clock atomic.Int64
+	var ready atomic.Int32
+	var wg sync.WaitGroup
+	hist := make([][]BigOp, clients)
+	for cl := 0; cl < clients; cl++ {
+		wg.Add(1)
+		go func(cl int) {
+			defer wg.Done()
+			ready.Add(1)
+			for int(ready.Load()) < clients {
+				runtime.Gosched()
+			}
+			for _, in := range plans[cl] {
+				call := clock.Add(1)
+				out := bigApply(store, in)
+				ret := clock.Add(1)
+				hist[cl] = append(hist[cl], BigOp{cl, in, out, call, ret})
+			}
+		}(cl)
+	}
+	wg.Wait()
+	lc := &LinCase{Family: "large-store", Clients: clients}
+	for _, h := range hist {
+		lc.Big = append(lc.Big, h...)
+	}
+	return lc
+}
+
+func checkBigHistory(lc *LinCase, timeout time.Duration) (porcupine.CheckResult, int) {
+	ops := make([]porcupine.Operation, len(lc.Big))
+	for i, o := range lc.Big {
+		ops[i] = porcupine.Operation{ClientId: o.Client, Input: o.In, Call: o.Call, Output: o.Out, Return: o.Ret}
+	}
+	res, _ := porcupine.CheckOperationsVerbose(bigModel, ops, timeout)
+	overlaps := 0
+	for i := range lc.Big {
+		for j := i + 1; j < len(lc.Big); j++ {
+			a, b := lc.Big[i], lc.Big[j]
+			if a.Client != b.Client && a.Call < b.Ret && b.Call < a.Ret {
+				overlaps++
+			}
+		}
+	}
+	return res, overlaps
 }
